@@ -518,7 +518,10 @@ class SynthObject(gpp.UGenParameter, metaclass=MetaSynthObject):
                 if isinstance(input, UGen) and input._descendants\
                 and self in input._descendants:
                     input._descendants.remove(self)
-                    input._optimize_graph()
+                    # A previous iteration may have replaced or removed
+                    # this input, only optimize units still in the graph.
+                    if self._synthdef._children[input._synth_index] is input:
+                        input._optimize_graph()
             self._synthdef._remove_ugen(self)
             return True
         return False
